@@ -134,7 +134,7 @@ def run_shard(ctx):
     quick = ctx.tier == 'quick'
 
     # (1) token soup
-    for i in range(ctx.n(80000, 2000000)):
+    for i in range(ctx.n(80000, 666666)):
         src = soup.gen_soup(rnd)
         kw, ml, thresh = soup.draw_options(rnd)
         if i % 2:
@@ -168,14 +168,14 @@ def run_shard(ctx):
         record(ctx, src, kw, idx % 5 == 0, None, 'keyval-shape', verdict(src, kw, idx % 5 == 0, None))
         if ctx.too_many():
             return
-    for i in range(ctx.n(20000, 600000)):
+    for i in range(ctx.n(20000, 200000)):
         src = soup.definition_shape(rnd)
         kw = dict(lang=rnd.choice(['en', 'de']), pack=rnd.choice([None, '*']))
         ml = rnd.random() < 0.2
         record(ctx, src, kw, ml, None, 'definition-shape', verdict(src, kw, ml, None))
         if ctx.too_many():
             return
-    for i in range(ctx.n(20000, 600000)):
+    for i in range(ctx.n(20000, 200000)):
         src = soup.wrapped_shape(rnd, targets)
         kw = dict(lang=rnd.choice(['en', 'de']), pack='*,cleveref')
         ml = rnd.random() < 0.2
